@@ -322,6 +322,34 @@ def r04_18(run, model):
                witness="package Main = main.gom (short) + other.gom with a syntax error at byte 900: `compiler run main.gom` prints the error against "
                        "main.gom's text - wrong file and line, or the panic `invalid offset` when main.gom is shorter than the offset")
     run.floor("parses of non-entry files in load_package", n, 1)
+    # every kind of error that parsing a file can produce carries ranges into that file's text: the resolver handles each of them
+    produced = set()
+    seen_fns, todo = set(), ["parse_ast_file"]
+    while todo:
+        nm = todo.pop()
+        if nm in seen_fns:
+            continue
+        seen_fns.add(nm)
+        for g in model.find_fns(nm, PIPE):
+            if g.body is None:
+                continue
+            for st in S.find(g.body, "Struct"):
+                if len(st["segs"]) >= 2 and st["segs"][-2] == "CompilationError":
+                    produced.add(st["segs"][-1])
+            for c in S.walk(g.body):
+                if c["k"] == "Call" and S.callee_name(c) and S.callee_name(c).startswith("parse_ast") and len(seen_fns) < 6:
+                    todo.append(S.callee_name(c))
+    if not produced:
+        raise AnalysisIncomplete("parse_ast_file: no CompilationError constructed in the functions it calls")
+    handled = set()
+    for g in model.fns(PK):
+        if g.body is not None and g.name in resolvers:
+            handled |= set(re.findall(r"CompilationError::(\w+)\{", S.norm_ws(run.facts.text(PK, g.body["sp"]))))
+    for v_ in sorted(produced):
+        run.ob("R04.18", f"load_package|{v_} errors of a non-entry file are located in that file", carries_file or v_ in handled, site(PK, f.node["sp"]),
+               f"parsing a file can fail with {sorted(produced)}; the resolver handles {sorted(handled) or 'none'}",
+               witness="Lib/lib.gom has an invalid array length at byte 1608: `error (lower): main.gom: Invalid array length` with range 1608..1631 "
+                       "against a 41-byte entry file")
 
 
 def r04_23(run, model):
